@@ -1,5 +1,5 @@
 (* C14/Proofs.v *)
-From Coq Require Import String Ascii List Bool Arith Lia ZifyNat DecimalString.
+From Coq Require Import String Ascii List Bool Arith Lia ZifyNat DecimalString ZArith.
 From Verif Require Import Base.Str Base.Percent Base.Base64 Base.Html Base.Query C14.Model C14.Spec.
 Import ListNotations.
 Open Scope string_scope.
@@ -742,9 +742,9 @@ Proof.
   2: split; [intros _ ? ? E1 E2; inversion E1; subst; congruence|reflexivity].
   rewrite orb_true_iff, negb_true_iff, ares_eqb_eq. split.
   - intros H d s E1 E2 Hn. inversion E1; subst d. rewrite Ea in E2. inversion E2; subst s.
-    destruct H as [H|H]; [|exact H]. apply nodup_b_iff in Hn. congruence.
-  - intros H. destruct (nodup_b (map fst (concat svcs))) eqn:En; [|left; reflexivity].
-    right. apply (H descs svcs eq_refl Ea). apply nodup_b_iff; exact En.
+    destruct H as [H|H]; [|exact H]. apply Nat.leb_gt in H. lia.
+  - intros H. destruct (length (services_raw (a_idx x) (concat svcs)) <=? 1)%nat eqn:En; [|left; reflexivity].
+    right. apply (H descs svcs eq_refl Ea). apply Nat.leb_le; exact En.
 Qed.
 
 Lemma assoc_app {A} k (a b : list (string * A)) :
@@ -765,34 +765,71 @@ Proof.
   intros H. destruct (assoc k l) eqn:E; [|reflexivity]. apply assoc_in in E. contradiction.
 Qed.
 
-Lemma nodup_app_disjoint (a b : list string) k : NoDup (a ++ b) -> In k a -> ~ In k b.
+(* ---- the code's test (isascii, isdigit, int(..) == endpoint_index) is the number the spec reads *)
+Lemma dec_go_digits : forall s acc, dec_go acc s = digits_val acc s.
+Proof. induction s as [|c r IH]; intros acc; cbn [dec_go digits_val]; [reflexivity|]. rewrite IH. reflexivity. Qed.
+
+Lemma dec_value_raw s : dec_value s = raw_value s.
+Proof. unfold dec_value, raw_value. rewrite dec_go_digits. reflexivity. Qed.
+
+Lemma idx_matches_nat n s : idx_matches (Z.of_nat n) s = denotes_raw n s.
 Proof.
-  induction a as [|x a IH]; cbn [app]; [contradiction|].
-  intros H Hin. inversion H as [|? ? Hn Hd]; subst. destruct Hin as [->|Hin].
-  - intros Hb. apply Hn. apply in_or_app. right; exact Hb.
-  - apply IH; assumption.
+  unfold idx_matches, denotes_raw. rewrite dec_value_raw. destruct (raw_value s) as [v|]; [|reflexivity].
+  destruct (Nat.eqb_spec v n) as [->|Hne]; [apply Z.eqb_refl|]. apply Z.eqb_neq. intros H. apply Nat2Z.inj in H. contradiction.
 Qed.
 
-Lemma nodup_app_r (a b : list string) : NoDup (a ++ b) -> NoDup b.
+Definition matches (z : Z) (sv : service) : bool := idx_matches z (fst sv).
+
+Lemma services_raw_matches n l : services_raw n l = map snd (filter (matches (Z.of_nat n)) l).
 Proof.
-  induction a as [|x a IH]; cbn [app]; [auto|]. intros H. inversion H; subst. apply IH; assumption.
+  unfold services_raw. f_equal. apply filter_ext. intros sv. unfold matches. rewrite idx_matches_nat. reflexivity.
 Qed.
 
-(* with unique indexes the descriptor loop finds the one service carrying the index *)
-Lemma scan_descs idx : forall descs svcs d0,
-  all_some descs = Some svcs -> NoDup (map fst (concat svcs)) ->
-  fold_left (scan_desc idx) descs (AOk d0) =
-  AOk (match assoc idx (concat svcs) with Some l => Some l | None => d0 end).
+Lemma find_svc_filter z (l : list service) : find_svc z l = hd_error (map snd (filter (matches z) l)).
 Proof.
-  induction descs as [|d descs IH]; intros svcs d0 Ha Hn.
+  induction l as [|sv l IH]; cbn [find_svc filter]; [reflexivity|].
+  unfold matches at 1. destruct (idx_matches z (fst sv)); [reflexivity|exact IH].
+Qed.
+
+Lemma find_svc_In z l loc : find_svc z l = Some loc -> exists sv, In sv l /\ idx_matches z (fst sv) = true /\ snd sv = loc.
+Proof.
+  induction l as [|sv l IH]; cbn [find_svc]; [discriminate|].
+  destruct (idx_matches z (fst sv)) eqn:E.
+  - intros H. inversion H. exists sv. repeat split; [left; reflexivity|exact E].
+  - intros H. destruct (IH H) as [sv' [Hin Hr]]. exists sv'. split; [right; exact Hin|exact Hr].
+Qed.
+
+Lemma scan_err z ds : fold_left (scan_desc z) ds AErr = AErr.
+Proof. induction ds as [|d ds IH]; [reflexivity|exact IH]. Qed.
+
+(* whatever comes out of the descriptor loop is a matching service of one of the descriptors *)
+Lemma scan_origin z l : forall ds d0,
+  fold_left (scan_desc z) ds (AOk d0) = AOk (Some l) ->
+  d0 = Some l \/ exists svcs, In (Some svcs) ds /\ find_svc z svcs = Some l.
+Proof.
+  induction ds as [|d ds IH]; intros d0 H; cbn [fold_left] in H.
+  - inversion H. left; reflexivity.
+  - destruct d as [svcs|]; cbn [scan_desc] in H; [|rewrite scan_err in H; discriminate].
+    destruct (IH _ H) as [E|[s [Hin Ha]]].
+    + destruct (find_svc z svcs) as [l'|] eqn:Ea; [|left; exact E].
+      right. exists svcs. split; [left; reflexivity|]. rewrite Ea. exact E.
+    + right. exists s. split; [right; exact Hin|exact Ha].
+Qed.
+
+(* with at most one matching service the descriptor loop finds it *)
+Lemma scan_unique z : forall ds svcs d0,
+  all_some ds = Some svcs -> length (filter (matches z) (concat svcs)) <= 1 ->
+  fold_left (scan_desc z) ds (AOk d0) =
+  AOk (match find_svc z (concat svcs) with Some l => Some l | None => d0 end).
+Proof.
+  induction ds as [|d ds IH]; intros svcs d0 Ha Hn.
   - cbn in Ha. inversion Ha; subst. reflexivity.
   - cbn [all_some] in Ha. destruct d as [s|]; [|discriminate].
-    destruct (all_some descs) as [svcs'|] eqn:Ea; [|discriminate]. inversion Ha; subst svcs. clear Ha.
-    cbn [concat] in *. rewrite map_app in Hn. cbn [fold_left scan_desc].
-    rewrite (IH svcs' _ eq_refl (nodup_app_r _ _ Hn)). rewrite assoc_app.
-    destruct (assoc idx s) as [l|] eqn:Es; [|reflexivity].
-    rewrite assoc_notin; [reflexivity|].
-    apply (nodup_app_disjoint _ _ idx Hn). apply (assoc_in _ _ _ Es).
+    destruct (all_some ds) as [svcs'|] eqn:Ea; [|discriminate]. inversion Ha; subst svcs. clear Ha.
+    cbn [concat] in *. rewrite filter_app, app_length in Hn. cbn [fold_left scan_desc].
+    rewrite (IH svcs' _ eq_refl ltac:(lia)). rewrite !find_svc_filter, filter_app, map_app.
+    destruct (filter (matches z) s) as [|a ra]; cbn [map app hd_error]; [reflexivity|].
+    destruct (filter (matches z) (concat svcs')); [reflexivity|cbn [length] in Hn; lia].
 Qed.
 
 Lemma take_app_length a b : take (String.length a) (a ++ b) = a.
@@ -811,6 +848,22 @@ Proof.
   specialize (H ltac:(vm_compute; reflexivity) n Hn). cbv beta in H.
   destruct (fmt02x n) as [|h1 [|h2 [|]]]; try discriminate.
   exists h1, h2. split; [reflexivity|]. apply opt_str_eqb_eq. exact H.
+Qed.
+
+Lemma fmt02x_small_z n : n < 256 ->
+  exists h1 h2, fmt02x n = String h1 (String h2 "") /\ int16_z (String h1 (String h2 "")) = Some (Z.of_nat n).
+Proof.
+  intros Hn.
+  pose proof (below (fun n => match fmt02x n with
+                              | String h1 (String h2 EmptyString) =>
+                                  match int16_z (String h1 (String h2 "")) with
+                                  | Some z => Z.eqb z (Z.of_nat n) | None => false end
+                              | _ => false
+                              end) 256) as H.
+  specialize (H ltac:(vm_compute; reflexivity) n Hn). cbv beta in H.
+  destruct (fmt02x n) as [|h1 [|h2 [|]]]; try discriminate.
+  exists h1, h2. split; [reflexivity|].
+  destruct (int16_z (String h1 (String h2 ""))) as [z|]; [|discriminate]. apply Z.eqb_eq in H. rewrite H. reflexivity.
 Qed.
 
 Lemma opt_id {A} (o : option A) : match o with Some l => Some l | None => None end = o.
@@ -837,10 +890,11 @@ Section Sha1.
     art_spec x (artifact2destination (a_sm x) (create_artifact sha1 (a_eid x) (a_handle x) (a_idx x))).
   Proof.
     unfold idx_ok. intros Hi Hs descs svcs Hm Ha Hn. apply Nat.ltb_lt in Hi.
-    destruct (fmt02x_small _ Hi) as [h1 [h2 [Hf Hint]]].
+    destruct (fmt02x_small_z _ Hi) as [h1 [h2 [Hf Hint]]].
     destruct (artifact_parse (a_eid x) (a_handle x) (a_idx x) h1 h2 Hf) as [a [Hd [Ht [Hx Hsid]]]].
     unfold artifact2destination. rewrite Hd, Ht, String.eqb_refl. cbn [negb].
-    rewrite Hx, Hint, Hsid, <- Hs, Hm. rewrite (scan_descs _ descs svcs None Ha Hn).
+    rewrite Hx, Hint, Hsid, <- Hs, Hm. rewrite services_raw_matches in *. rewrite map_length in Hn.
+    rewrite (scan_unique _ descs svcs None Ha Hn). rewrite find_svc_filter.
     f_equal. apply opt_id.
   Qed.
 
@@ -854,9 +908,9 @@ Section Sha1.
               a_sm := [(sha1 "https://idp.example.org/idp.xml", Some [Some [("256", "https://idp.example.org/ars")]])] |}.
     split; [reflexivity|]. intros H. apply art_spec_b_iff in H. revert H.
     unfold art_spec_b. cbn [a_eid a_sid a_handle a_idx a_sm assoc]. rewrite String.eqb_refl.
-    cbn [all_some concat app map fst nodup_b mem negb andb orb].
-    change (decimal 256) with "256".
-    change (assoc "256" [("256", "https://idp.example.org/ars")]) with (Some "https://idp.example.org/ars").
+    cbn [all_some concat app].
+    change (services_raw 256 [("256", "https://idp.example.org/ars")]) with ["https://idp.example.org/ars"].
+    cbn [length Nat.leb negb orb hd_error].
     unfold create_artifact, artifact2destination. rewrite b64_decode_str_encode.
     change (fmt02x 256) with "100".
     change (take 2 (ARTIFACT_TYPECODE ++ "100" ++ sha1 "https://idp.example.org/idp.xml" ++ "01234567890123456789"))
@@ -864,7 +918,7 @@ Section Sha1.
     rewrite String.eqb_refl. cbn [negb].
     change (slice 2 4 (ARTIFACT_TYPECODE ++ "100" ++ sha1 "https://idp.example.org/idp.xml" ++ "01234567890123456789"))
       with "10".
-    change (int16_str "10") with (Some "16").
+    change (int16_z "10") with (Some 16%Z).
     cbn [assoc]. destruct (String.eqb _ _); cbn; discriminate.
   Qed.
 End Sha1.
